@@ -454,6 +454,12 @@ theorem labelsMatch_eff {m : CMode} {a b : List Label} (hm : m ≠ .disabled) (h
   | casePreserving => simpa using h
   | disabled => exact absurd rfl hm
 
+/-- `g` is the first octet of a label of the name that lies physically at `a`: one of its literal
+    labels, or its root label -/
+def PhysLab (oct : Bytes) (a g : Nat) : Prop :=
+  ∃ pre b, LabelsWF pre ∧ BytesAt oct a (pre.flatMap WName.encLabel ++ [b]) ∧ (b = 0 ∨ isPtr b = true) ∧
+    (g ∈ labelStartsFrom a pre ∨ (b = 0 ∧ g = a + encLen pre))
+
 /-- what a name-writing routine guarantees when it starts from a valid state `s` and is given the
     name `n`: it does not panic; on success the state is valid again, the anchors it does not
     return are untouched, and the anchor it returns denotes `n` -/
@@ -464,7 +470,11 @@ structure NameSpec (s : State) (n : WName) (r : Out WriterErr (Option Prior) × 
   ok : ∀ p, r.1 = .ok p → WInv r.2 ∧ (∀ q, p = some q → Den r.2 q n) ∧ r.2.qname = s.qname ∧
     r.2.mostRecentOwner = s.mostRecentOwner ∧ r.2.mostRecentNameInRdata = s.mostRecentNameInRdata ∧
     (∃ ls, ReadsAt r.2 s.cursor ls ∧ labelsMatch (effMode s.mode) n.labels ls = true) ∧
-    ChunkAt r.2.octets s.cursor (r.2.cursor - s.cursor)
+    ChunkAt r.2.octets s.cursor (r.2.cursor - s.cursor) ∧
+    -- the label starts recorded are those of the name now lying at the old cursor
+    (∀ g, g ∈ r.2.gLabels → g ∈ s.gLabels ∨ PhysLab r.2.octets s.cursor g) ∧
+    -- without compression the name is written literally
+    (s.mode = .disabled → BytesAt r.2.octets s.cursor n.wire ∧ r.2.cursor = s.cursor + n.wire.length)
   /-- and the pointer log stays sound -/
   log : ∀ p, r.1 = .ok p → PtrLogOK s → PtrLogOK r.2
 
@@ -587,7 +597,16 @@ theorem writeUncompressedName_spec (n : WName) (s : State) (h : WInv s) (hn : n.
     exact ⟨s.cursor, s.cursor, .here hlt hb0 hnp, Or.inl ⟨rfl, rfl⟩, hC, by omega⟩
   refine ⟨hw, ?_, by rw [← hs']; rfl, by rw [← hs']; rfl, by rw [← hs']; rfl,
     ⟨n.labels, hreadsU, labelsMatch_refl _ _⟩,
-    ⟨n.labels, 0, hwf, hb, Or.inl ⟨rfl, by show s'.cursor - s.cursor = _; rw [hcur, hwl]; omega⟩⟩⟩
+    ⟨n.labels, 0, hwf, hb, Or.inl ⟨rfl, by show s'.cursor - s.cursor = _; rw [hcur, hwl]; omega⟩⟩, ?prov, fun _ => ⟨hb, hcur⟩⟩
+  case prov =>
+    intro g hg
+    have hg' : g ∈ s'.gLabels := hg
+    rw [hgl] at hg'
+    simp only [List.cons_append, List.nil_append, List.mem_cons, List.mem_append, List.mem_reverse] at hg'
+    rcases hg' with rfl | hg' | hg'
+    · exact Or.inr ⟨n.labels, 0, hwf, hb, Or.inl rfl, Or.inr ⟨rfl, rfl⟩⟩
+    · exact Or.inr ⟨n.labels, 0, hwf, hb, Or.inl rfl, Or.inl hg'⟩
+    · exact Or.inl hg'
   intro q hq
   rw [← hp] at hq
   show Den s' q n
@@ -638,7 +657,8 @@ theorem literal_ptr_state {s s3 : State} (h : WInv s) (e : Ext s s3) {pre tail :
     (hbound : pre ≠ [] → encLen pre + encLen tail + 1 ≤ 255) :
     WInv s3 ∧ (∃ q, Hop s3.octets s3.cursor s.cursor q ∧ StoredAt s3 q (pre ++ tail) ∧
       (pre ≠ [] → q = s.cursor)) ∧ ReadsAt s3 s.cursor (pre ++ tail) ∧
-      ChunkAt s3.octets s.cursor (s3.cursor - s.cursor) := by
+      ChunkAt s3.octets s.cursor (s3.cursor - s.cursor) ∧
+      (∀ g, g ∈ s3.gLabels → g ∈ s.gLabels ∨ PhysLab s3.octets s.cursor g) := by
   have htail' : StoredAt s3 pp tail := storedAt_ext e htail
   obtain ⟨_, hpplt, b3, hb3, hnp3⟩ := nameAt_start htail
   have hb3' : s3.octets[pp]? = some b3 := by rw [e.pre pp hpplt]; exact hb3
@@ -689,7 +709,25 @@ theorem literal_ptr_state {s s3 : State} (h : WInv s) (e : Ext s s3) {pre tail :
     · have hi' : i = (pre.flatMap WName.encLabel).length := by omega
       subst hi'
       simp
-  refine ⟨?_, ⟨q, hq1, hq2, hq3⟩, hreads, hchunk⟩
+  have hprov : ∀ g, g ∈ s3.gLabels → g ∈ s.gLabels ∨ PhysLab s3.octets s.cursor g := by
+    intro g hg
+    rw [hgl] at hg
+    simp only [List.mem_append, List.mem_reverse] at hg
+    rcases hg with hg | hg
+    · obtain ⟨pre', b', hwf', hb', _⟩ := hchunk
+      refine Or.inr ⟨pre, b1, hwf, ?_, Or.inr hisp, Or.inl hg⟩
+      intro i hi
+      rw [List.length_append] at hi
+      simp only [List.length_cons, List.length_nil] at hi
+      have := hb i (by rw [hpb, List.length_append]; simp only [List.length_cons, List.length_nil]; omega)
+      rw [this, hpb]
+      by_cases hlt : i < (pre.flatMap WName.encLabel).length
+      · rw [List.getElem?_append_left hlt, List.getElem?_append_left hlt]
+      · have hi' : i = (pre.flatMap WName.encLabel).length := by omega
+        subst hi'
+        simp
+    · exact Or.inl hg
+  refine ⟨?_, ⟨q, hq1, hq2, hq3⟩, hreads, hchunk, hprov⟩
   have hc12 := h.c12; have hav := h.cur_av
   refine ⟨by rw [hcur]; omega, by rw [e.available]; exact e.avail hav,
     by rw [e.available, e.size]; exact h.av_size, ?_, ?_, ?_, ?_, ?_, ?_⟩
@@ -788,7 +826,8 @@ theorem writeCompressedUnhintedName_spec (n : WName) (s : State) (h : WInv s) (h
                 (by have : (ptrBytes m.priorPointer).length = 2 := rfl; omega))
           (by simp [pushed, encLen]; rfl) (by simp [pushed, labelStartsFrom]) rfl rfl rfl (fun hne => absurd rfl hne)
         refine ⟨hw, ?_, rfl, rfl, rfl, ⟨ls, by simpa using hrd,
-          labelsMatch_eff hnd (by have := hmatch; rw [hk0] at this; simpa using this)⟩, hck⟩
+          labelsMatch_eff hnd (by have := hmatch; rw [hk0] at this; simpa using this)⟩, hck.1, hck.2,
+          fun hd => absurd hd hnd⟩
         intro q hq
         rw [← hp] at hq
         cases hq
@@ -851,7 +890,7 @@ theorem writeCompressedUnhintedName_spec (n : WName) (s : State) (h : WInv s) (h
             by simp only [pushed]; rw [← hs2]; rfl, ⟨_, hrd, by
               have := labelsMatch_append (mode := effMode s.mode)
                 (labelsMatch_refl _ (List.take m.startColumn n.labels)) (labelsMatch_eff hnd hmatch)
-              rwa [List.take_append_drop] at this⟩, hck⟩
+              rwa [List.take_append_drop] at this⟩, hck.1, hck.2, fun hd => absurd hd hnd⟩
           intro q' hq'
           rw [← hp] at hq'
           cases hh : hintPointerNew s.cursor with
@@ -898,7 +937,8 @@ theorem pushHinted_spec (q : Prior) (n : WName) (s : State) (h : WInv s) (hd : D
       (by simpa [pushed] using bytesAt_writeAt s.octets s.cursor (ptrBytes q.ptr)
             (by have : (ptrBytes q.ptr).length = 2 := rfl; omega))
       (by simp [pushed, encLen]; rfl) (by simp [pushed, labelStartsFrom]) rfl rfl rfl (fun hne => absurd rfl hne)
-    refine ⟨hw, ?_, rfl, rfl, rfl, ⟨ls, by simpa using hrd, by unfold effMode; rw [if_pos hm]; exact hmt⟩, hck⟩
+    refine ⟨hw, ?_, rfl, rfl, rfl, ⟨ls, by simpa using hrd, by unfold effMode; rw [if_pos hm]; exact hmt⟩, hck.1,
+      hck.2, fun hd => by rw [hm] at hd; cases hd⟩
     intro q' hq'
     rw [← hp] at hq'
     cases hq'
